@@ -67,6 +67,27 @@ CLAIMS = {
    technique='TLC linearisability checking of recorded concurrent histories of the real object against the sequential specification (ThresholdSigLin.tla), plus TLC check of the object invariants (ThresholdSigSeq.tla)',
    text='Goroutines hammer one real inspector/participant; invocations and responses are stamped with one atomic counter; TLC searches a linearisation for every history (rejection = violation); a corrupted history must be rejected (negative control).',
    note='Only schedules the Go scheduler produces (with yields) are explored.'),
+
+ 'C09': dict(level='fault_enumeration', design='5 C09, 4.6',
+   technique='TLC enumeration of the table of every exported function x argument classes and every DKG message x phase (APIMisuse.tla), each executed on the real library in child processes under recover(); behaviours of the other specifications re-executed for panics; ASan build in the thorough tier',
+   text='The specification is the fault table: 10111 calls with their documented outcome class (ok / typed rejection / documented exception). Every call is run on the real code; a recovered panic, a dying child, an untyped error where a typed one is documented, or an accepted invalid input is a violation. DKG network runs, FVSS histories, decoder and verification classes of the other properties are replayed for their panics.',
+   note='Inputs outside the class grid are not explored; C reads inside a Go slice capacity are invisible to recover() and ASan.'),
+ 'C11': dict(level='model_checking', design='5 C11, 4.6',
+   technique='TLC check of the staged ECDSA verification against its definition over curve x hasher x signature classes (ECDSAVerify.tla) + every class concretised and judged by an independent verifier',
+   text='All 380 class combinations are decided on the model and executed on the real Sign / Verify / SignatureFormatCheck for both curves with keys 1, n-1 and random; Sign outputs and every verdict are cross-checked with the ECDSA equation over math/big arithmetic and independently computed digests.',
+   note='Signature classes are structured (ranges, twin, swaps, bit flips, lengths), not all 2^512 strings.'),
+ 'C12': dict(level='model_checking', design='5 C12, 4.6',
+   technique='TLC enumeration of seed lengths and key-object life cycles with cache invariants (KeyGen.tla) + replay against reference derivations (own HKDF, IETF BLS KeyGen) and reference scalar multiplication',
+   text='Every seed length 0..300 for the three algorithms (random and all-zero seeds) is checked for acceptance 32..256 and, when accepted, against the documented derivation; every life cycle (generated / decoded 1, n-1, small, leading-zero / aggregated; repeated PublicKey(), re-decoding) is replayed and the public key compared with scalar x generator computed by the reference.',
+   note='Seed contents sampled; BLS G2 encodings compared in the library coefficient order.'),
+ 'C19': dict(level='exploration', design='5 C19, 4.4',
+   technique='recorded concurrent executions validated by TLC against the pure-function specification (PureOps.tla); data-race clause by the Go race detector on the same operation mixes',
+   text='Goroutines run mixes of the listed operations on shared keys and one shared KMAC hasher; TLC accepts the log only if every concurrent result equals the value computed alone and all argument buffers are unchanged; the recorder is also run under -race.',
+   note='Only schedules the Go scheduler produces; the race clause is decided by the race detector, not by TLC.'),
+ 'C20': dict(level='translation_validation', design='5 C20',
+   technique='one transcript program and the specification-derived case sets built in four configurations; transcripts compared line by line, expectations re-checked per configuration',
+   text='default (ADX), portable (-D__BLST_PORTABLE__), purego and no_cgo builds of the harness must print identical transcripts (hashing, KMAC, PRG, key generation, BLS signing / verdicts / aggregation / threshold / DKG messages, ECDSA verdicts) and satisfy the same model verdicts for the BLSVerify, Serialization and Hasher case sets.',
+   note='No model of compiler flags; the TLA+ content is the behaviours replayed in every configuration.'),
 }
 
 checks = []
@@ -85,7 +106,7 @@ for pid in props:
         'level_note': c['note'],
         'technique': c['technique'],
     })
-NA_REASON = 'check not built yet (construction in progress, see DESIGN.md section 8)'
+NA_REASON = 'not claimed'
 m = {
  'version': 1,
  'setup_cmd': 'tools/setup.sh',
